@@ -123,6 +123,10 @@ anchor("ecdf_beard", "i n", EM, "empirical_cdf", ("assign", "f", 3), inline=[])
 anchor("ecdf_gringorten", "i n", EM, "empirical_cdf", ("assign", "f", 4), inline=[])
 CO = "qats/fatigue/corrections.py"
 anchor("gh_corrected", "means ranges uts", CO, "goodman_haigh", [("assign", "corrected_ranges", 0), ("return", -1)], inline=[])
+SG = "qats/signal.py"
+# the Tukey window of `taper` (rising and falling cosine flanks; the flat part is the literal 1)
+anchor("tk_rise", "alpha i window_len", SG, "taper", ("assign", "w[i]", 0), inline=[])
+anchor("tk_fall", "alpha i window_len", SG, "taper", ("assign", "w[i]", 2), inline=[])
 MO = "qats/motions.py"
 for _i in range(3):
     for _j in range(3):
